@@ -16,7 +16,7 @@ def make(S=1,M=1,obj_type="complex",seed=0,roi=(8,10),gpts=(3,4),step=(1.3,0.9),
     pd=PtychographyDatasetRaster.from_dataset4dstem(ds,verbose=0,learn_descan=False,learn_scan_positions=False)
     pd.preprocess(com_fit_function="no_shift",force_com_rotation=0,force_com_transpose=False,plot_rotation=False,plot_com=False,probe_energy=E)
     om=ObjectPixelated.from_uniform(num_slices=S, obj_type=obj_type, slice_thicknesses=thick if S>1 else None)
-    pm=ProbePixelated.from_array(probe.astype(np.complex64), probe_params={"energy":E,"semiangle_cutoff":20.0,"defocus":0})
+    pm=ProbePixelated.from_array(probe.astype(np.complex64), probe_params={"energy":E,"semiangle_cutoff":20.0,"defocus":0}, rng=11)
     pt=Ptychography.from_models(dset=pd,obj_model=om,probe_model=pm,detector_model=DetectorPixelated(),rng=rng,verbose=0)
     pt.preprocess(obj_padding_px=pad, plot_rotation=False, plot_com=False)
     return pt
